@@ -34,6 +34,8 @@ pub struct Op {
     pub weight: f64,
     /// explicit not-implemented stub (excluded from C16)
     pub stub: bool,
+    /// both `run` and `slow` are crate code (spelling equivalence): a panic on both sides agrees
+    pub differential: bool,
     /// free text shown in evidence
     pub note: &'static str,
 }
@@ -56,6 +58,7 @@ impl Op {
             slow: None,
             weight: 1.0,
             stub: false,
+            differential: false,
             note: "",
         }
     }
@@ -69,6 +72,10 @@ impl Op {
     }
     pub fn weight(mut self, w: f64) -> Op {
         self.weight = w;
+        self
+    }
+    pub fn diff(mut self) -> Op {
+        self.differential = true;
         self
     }
     pub fn stub(mut self) -> Op {
